@@ -131,15 +131,35 @@ def instantiate(cond, vals, ctype, a, b):
 
 
 def macro_defs(ctx, text):
-    """#define lines for the Cython macros a guard uses (from the utility catalogue)."""
-    out, missing = [], []
-    for name in sorted(set(re.findall(r'\b(__P[Yy][Xx]_\w+)\s*\(', text))):
+    """#define lines for the Cython macros a guard uses (transitively, from the utility catalogue)."""
+    out, missing, seen = [], [], set()
+    todo = sorted(set(re.findall(r'\b(__P[Yy][Xx]_\w+)\b', text)))
+    while todo:
+        name = todo.pop()
+        if name in seen:
+            continue
+        seen.add(name)
         ds = [d for d in ctx.cat.decls.get(name, []) if d.kind == 'macro']
         if not ds:
             missing.append(name)
             continue
+        # several definitions under #if: take the one that is active when the file is compiled as C
+        def cxx_only(d):
+            for c in d.conds or ():
+                c = c.strip()
+                if re.match(r'(ifdef\s+__cplusplus|if\s+defined\s*\(?\s*__cplusplus)', c) and 'else' not in c:
+                    return True
+                if re.match(r'ifndef\s+__cplusplus', c) and 'else' in c:
+                    return True
+            return False
+        ds = [d for d in ds if not cxx_only(d)] or ds
         d = ds[0]
-        out.append('#define %s(%s) %s' % (name, ', '.join(p.strip() for p in (d.params or [])), ' '.join((d.body or '').replace('\\\n', ' ').split())))
+        body = ' '.join((d.body or '').replace('\\\n', ' ').split())
+        if d.params is None:
+            out.append('#define %s %s' % (name, body))
+        else:
+            out.append('#define %s(%s) %s' % (name, ', '.join(p.strip() for p in d.params), body))
+        todo.extend(n for n in set(re.findall(r'\b(__P[Yy][Xx]_\w+)\b', body)) if n not in seen)
     return out, missing
 
 
@@ -167,6 +187,15 @@ def unguarded_signed_divisions(ctext, fname):
                     neg1 = True
         return has_var and neg1
 
+    def always_returns(n):
+        k = n.get('kind')
+        if k == 'ReturnStmt':
+            return True
+        if k == 'CompoundStmt':
+            inner = [c for c in n.get('inner', []) or [] if isinstance(c, dict)]
+            return bool(inner) and always_returns(inner[-1])
+        return False
+
     def walk(n, conds):
         k = n.get('kind')
         if k == 'BinaryOperator' and n.get('opcode') in ('/', '%'):
@@ -181,6 +210,16 @@ def unguarded_signed_divisions(ctext, fname):
             walk(inner[0], conds)
             for c in inner[1:]:
                 walk(c, conds + [inner[0]])
+            return
+        if k == 'CompoundStmt':
+            cur = list(conds)
+            for c in inner:
+                walk(c, cur)
+                # `if (b == -1) return ...;` guards everything after it
+                if c.get('kind') == 'IfStmt':
+                    ci = [x for x in c.get('inner', []) if isinstance(x, dict)]
+                    if len(ci) >= 2 and always_returns(ci[1]):
+                        cur = cur + [ci[0]]
             return
         for c in inner:
             walk(c, conds)
